@@ -553,6 +553,14 @@ func mentionsValue(v, want ssa.Value, depth int) bool {
 				return true
 			}
 		}
+		// strconv.Itoa / FormatInt / FormatFloat / FormatBool / Quote of the value
+		if f := ir.Static(x); f != nil && f.Pkg != nil && f.Pkg.Pkg.Path() == "strconv" && (f.Name() == "Itoa" || f.Name() == "Quote" || strings.HasPrefix(f.Name(), "Format")) && len(x.Call.Args) > 0 {
+			return mentionsValue(x.Call.Args[0], want, depth+1)
+		}
+	case *ssa.Convert:
+		return mentionsValue(x.X, want, depth+1)
+	case *ssa.ChangeType:
+		return mentionsValue(x.X, want, depth+1)
 	case *ssa.Phi:
 		if len(x.Edges) == 0 {
 			return false
@@ -912,6 +920,7 @@ func help2helpers(c *Ctx, ph *ssa.Function) {
 				}
 				c.Mark(fn)
 				ok, why := true, ""
+				undecidedShape := false
 				type leaf struct {
 					v    ssa.Value
 					from *ssa.BasicBlock
@@ -967,11 +976,35 @@ func help2helpers(c *Ctx, ph *ssa.Function) {
 						}
 					})
 					if !blank {
+						// decided by a predicate of the module on the part that this rule cannot read (a
+						// hand-written blank test): not claimed
+						opaque := false
+						for _, cd := range ir.DominatingConds(lf.from) {
+							if call, isCall := cd.V.(*ssa.Call); isCall {
+								if f := ir.Static(call); f != nil && f.Pkg == fn.Pkg && len(call.Call.Args) == 1 && call.Call.Args[0] == v {
+									opaque = true
+								}
+							}
+						}
+						if iff, isIf := lf.from.Instrs[len(lf.from.Instrs)-1].(*ssa.If); isIf {
+							if call, isCall := iff.Cond.(*ssa.Call); isCall {
+								if f := ir.Static(call); f != nil && f.Pkg == fn.Pkg && len(call.Call.Args) == 1 && call.Call.Args[0] == v {
+									opaque = true
+								}
+							}
+						}
+						if opaque {
+							undecidedShape = true
+							continue
+						}
 						ok, why = false, "a part can be left out of the joined text although it is not blank"
 					}
 				}
 				if okB, w := noBreak(h); !okB {
 					ok, why = false, w
+				}
+				if undecidedShape && ok {
+					continue
 				}
 				c.Check(ok, Q(fn)+":every-part", fn.Pos(), "every non-blank part is in the joined text", why)
 			}
@@ -1356,8 +1389,37 @@ func help2names(c *Ctx, fn *ssa.Function) {
 		return
 	}
 	if okB, w := noBreak(hdr); !okB {
-		c.Bad(key+":scan-all", fn.Pos(), "%s: a short name listed after the first long one (or vice versa) would be lost", w)
-		return
+		// leaving early is harmless once both names are settled: every edge out of the body other than
+		// back to the header is taken with two different strings known not to be empty
+		body, _, exitB := loopBody(hdr)
+		settled := exitB != nil
+		for b := range body {
+			for _, sc := range b.Succs {
+				if body[sc] || sc == hdr {
+					continue
+				}
+				nonEmpty := map[ssa.Value]bool{}
+				ir.Instrs(fn, func(in ssa.Instruction) {
+					bo, isBo := in.(*ssa.BinOp)
+					if !isBo || (bo.Op != token.EQL && bo.Op != token.NEQ) {
+						return
+					}
+					if sv, isS := ir.ConstString(bo.Y); !isS || sv != "" {
+						return
+					}
+					if ir.HoldsAt(bo, bo.Op == token.NEQ, b) || ir.HoldsOnEdge(bo, bo.Op == token.NEQ, b, sc) {
+						nonEmpty[bo.X] = true
+					}
+				})
+				if len(nonEmpty) < 2 {
+					settled = false
+				}
+			}
+		}
+		if !settled {
+			c.Bad(key+":scan-all", fn.Pos(), "%s: a short name listed after the first long one (or vice versa) would be lost", w)
+			return
+		}
 	}
 	var accs []*ssa.Phi
 	for _, in := range hdr.Instrs {
